@@ -236,14 +236,16 @@ Qed.
 Lemma api_decode_encode a : wf_api a = true -> decode_api (encode_api a) = Ok a.
 Proof.
   intro W. unfold wf_api in W. split_and. unfold two32 in *. pose proof (api_has_widths a) as HW.
-  unfold decode_api, encode_api. field 0%nat.
+  unfold decode_api. rewrite api_size. replace (4 + Nlen (am_data a) <? 4) with false by lia.
+  unfold encode_api. field 0%nat.
   rewrite (sl_from_fields _ _ 1%nat 1002 4 HW) by reflexivity. cbn [bind nth].
   rewrite be_dec_enc by (rewrite pow256_4; lia). destruct a; reflexivity.
 Qed.
 
 Lemma api_canonical bs a : bytes_ok bs = true -> decode_api bs = Ok a -> encode_api a = bs.
 Proof.
-  intros Hb H. unfold decode_api in H. inv_bind H. inv_bind H. inversion H; subst a; clear H.
+  intros Hb H. unfold decode_api in H. destruct (Nlen bs <? 4); [discriminate|].
+  inv_bind H. inv_bind H. inversion H; subst a; clear H.
   rewrite sl_ok in E. unfold sl_from in E0. destruct (slice_from 4 bs) eqn:E1; [|discriminate].
   inversion E0; subst l; clear E0. rewrite slice_from_as_slice in E1.
   unfold encode_api. cbn [am_index am_data concat].
@@ -358,9 +360,22 @@ Proof.
   destruct g; reflexivity.
 Qed.
 
+Lemma ghost_checked_decode_encode g :
+  wf_ghost g = true -> decode_ghost_checked (encode_ghost g) = Ok g.
+Proof.
+  intro W. pose proof (ghost_has_widths g W) as HW. pose proof (ghost_size g W) as HL.
+  unfold decode_ghost_checked. rewrite HL.
+  replace (36 + 82 * Nlen (g_prehashes g) <? 36) with false by lia.
+  pose proof W as W'. unfold wf_ghost in W'. split_and. unfold two32 in *.
+  unfold encode_ghost at 1.
+  field 1%nat. rewrite be_dec_enc by (rewrite pow256_4; lia).
+  replace (36 + 82 * Nlen (g_prehashes g) <? 36 + 82 * Nlen (g_prehashes g)) with false by lia.
+  now apply ghost_decode_encode.
+Qed.
+
 (* is_lite-style booleans: any non-zero byte decodes to true *)
 Lemma ghost_canonical_refuted :
-  exists bs g, bytes_ok bs = true /\ decode_ghost bs = Ok g /\ encode_ghost g <> bs.
+  exists bs g, bytes_ok bs = true /\ decode_ghost_checked bs = Ok g /\ encode_ghost g <> bs.
 Proof.
   exists (repeat 0 35 ++ [1] ++ repeat 0 80 ++ [7; 0]). eexists.
   split; [reflexivity|split; [vm_compute; reflexivity|vm_compute; discriminate]].
@@ -581,7 +596,7 @@ Proof.
   - reflexivity.
   - reflexivity.
   - now rewrite services_decode_encode.
-  - now rewrite ghost_decode_encode.
+  - now rewrite ghost_checked_decode_encode.
   - (* GhostChainRequest *)
     split_and. unfold two64 in *.
     assert (HW : has_widths [be_enc 8 id; h; f] [8; 32; 32])
@@ -619,7 +634,10 @@ Proof.
   inv_bind H. inv_bind H. inv_bind H. inv_bind H. inv_bind H. inv_bind H.
   destruct (negb (x6 <? 9)) eqn:Ety; [discriminate|].
   cbv zeta in H. unfold TRANSACTION_SIZE, SLIP_SIZE, HOP_SIZE in *.
-  inv_bind H. inv_bind H. inv_bind H. inv_bind H. inversion H; subst t; clear H.
+  match type of H with context [Nlen bs <? ?e] => destruct (Nlen bs <? e) eqn:Edecl; [discriminate|] end.
+  inv_bind H. inv_bind H. inv_bind H. inv_bind H.
+  match type of H with (if ?c then _ else _) = _ => destruct c eqn:Egt; [discriminate|] end.
+  inversion H; subst t; clear H.
   rewrite sl_ok in *.
   assert (B0 : 93 <= Nlen bs) by lia.
   destruct (dec_items_ok_inv 309 59 decode_slip encode_slip slip_canonical bs Hb _ _ _ _ B0 E7)
@@ -643,7 +661,7 @@ Proof.
   rewrite pow256_8, pow256_4 in *.
   unfold wf_tx, arr_ok, two64, two32. cbn [t_from t_to t_data t_path t_sig t_ts t_repl t_type].
   rewrite W7, W8, W10, (slice_ok _ _ _ _ Hb E9), (slice_ok _ _ _ _ Hb E3).
-  repeat (apply andb_true_iff; split); try reflexivity; lia.
+  repeat (apply andb_true_iff; split); try reflexivity; try lia.
 Qed.
 
 Lemma tx_wire_stable bs t :
